@@ -20,7 +20,7 @@ def strategy(optimizer, tier):
         optimizer,
         task=strategies.task_spec(),
         config=strategies.config_spec(optimizer, max_cycles=(1, 8 if tier == "quick" else 25)),
-        modes=modes)
+        modes=modes, warmup=0.15)
 
 
 def judge(spec, obs):
